@@ -697,6 +697,18 @@ func (p *prover) factsOfCond(cond ssa.Value, val bool) []lin {
 			return []lin{r.add(l, -1)}
 		case token.EQL:
 			return []lin{l.add(r, -1), r.add(l, -1)}
+		case token.NEQ:
+			// x != 0 for a non-negative x (a length, an unsigned value): x >= 1
+			d := l.add(r, -1)
+			if p.linNonneg(d) {
+				f := newLin(1).add(d, -1)
+				return []lin{f}
+			}
+			d = r.add(l, -1)
+			if p.linNonneg(d) {
+				f := newLin(1).add(d, -1)
+				return []lin{f}
+			}
 		}
 	}
 	return nil
@@ -813,6 +825,10 @@ func (p *prover) isNonneg(v ssa.Value) bool {
 	case *ssa.Convert:
 		if isUnsigned(x.X.Type()) && bitsOf(x.X.Type()) < bitsOf(x.Type()) {
 			return true
+		}
+		if isUnsigned(x.X.Type()) && !isUnsigned(x.Type()) {
+			// unsigned -> signed of the same (or a smaller) width: negative when the top bit is set
+			return false
 		}
 		return p.isNonneg(x.X) && bitsOf(x.Type()) >= bitsOf(x.X.Type())
 	}
@@ -950,23 +966,30 @@ func (p *prover) obligationsOf(scope func(ssa.Value) bool) []boundsObl {
 					out = append(out, boundsObl{in, fmt.Sprintf("len >= %d for fixed-size read", need), f})
 				}
 			case *ssa.MakeSlice:
-				// allocation driven by a decoded length must be bounded
+				// make([]T, n) panics on a negative n (that n is bounded from above is rule alloc-bounded)
 				l := p.linOf(x.Len)
-				if len(l.terms) == 0 {
+				if len(l.terms) == 0 || p.isNonneg(x.Len) {
 					continue
 				}
-				decoded := false
-				for k := range l.terms {
-					if !k.len && scope(k.v) {
-						decoded = true
+				// only lengths computed from untrusted data: a decoded integer, or a difference involving a buffer length
+				// (configuration values and object state are not this function's input)
+				fromInput := dependsOn(x.Len, func(v ssa.Value) bool { return isWideDecode(v) || isNarrowDecode(v) })
+				for k, coef := range l.terms {
+					if k.len && coef != 0 {
+						for _, c2 := range l.terms {
+							if c2 < 0 {
+								fromInput = true
+							}
+						}
+						if coef < 0 {
+							fromInput = true
+						}
 					}
 				}
-				if !decoded {
+				if !fromInput {
 					continue
 				}
-				f := l.clone()
-				f.c -= 1 << 26 // 64 MiB
-				out = append(out, boundsObl{in, "allocation size bounded", f})
+				out = append(out, boundsObl{in, "make len >= 0", newLin(0).add(l, -1)})
 			case *ssa.Panic:
 				out = append(out, boundsObl{in, "explicit panic", newLin(1)})
 			}
